@@ -54,12 +54,14 @@ def run(ck):
     ck.rule("C03.R5", "enter/exit pairing of guards, incl. unwinding", floor=6)
     ck.rule("C03.R6", "enter guards are !Send", floor=2)
     ck.rule("C03.R7", "Instrumented: span entered around every inner poll and the inner drop", floor=4)
+    ck.rule("C03.R8", "a disabled span macro reaches no collector call (expansion fixtures)", floor=60)
     r1_r2(ck, F)
     r3(ck, F)
     r4(ck, F)
     r5(ck, F)
     r6(ck, F)
     r7(ck, F)
+    r8(ck, F)
 
 
 def r1_r2(ck, F):
@@ -455,3 +457,65 @@ def r7(ck, F):
                 ck.ok("C03.R7", key, fn=path)
             else:
                 ck.bad("C03.R7", key, where(b.raw["sp"]), msg, fn=path)
+
+
+def r8(ck, F):
+    """On every path of a span! expansion on which some filtering stage said no, the only tracing calls are
+    the guard tests themselves and disabled_span(); and disabled_span() builds a Span with inner == None."""
+    from rules import fxlib
+    FX = Facts("fx")
+    ck.configs.append("fx")
+    allowed_prefixes = ("tracing::__macro_support::MacroCallsite::interest", "tracing::__macro_support::MacroCallsite::is_enabled",
+                        "tracing::__macro_support::MacroCallsite::disabled_span", "tracing_core::collect::Interest::",
+                        "tracing_core::metadata::LevelFilter::current", "<tracing_core::metadata::Level", "<tracing_core::metadata::LevelFilter",
+                        "core::cmp::PartialOrd", "fx_macros::macros_gen::keep", "core::ops::", "<drop>")
+    for fname, exp in sorted(FX.expect.items()):
+        if exp["kind"] != "span":
+            continue
+        b = FX.body("fx_macros::macros_gen::" + fname)
+        if b is None:
+            continue
+        sites = fxlib.delivery_sites(FX, b, "span")
+        if len(sites) != 1:
+            ck.bad("C03.R8", fname, where(b.raw["sp"]), "expected one Span constructor call in the expansion")
+            continue
+        dbb = sites[0][0]
+        bad = None
+        n = 0
+        for p in PathEval(b).run():
+            if p.end != "return" or dbb in p.blocks:
+                continue
+            n += 1
+            for bb, c, args, term in p.calls:
+                path = c.get("resolved") or c.get("path", "")
+                if path.startswith("fx_macros::macros_gen::probe_") and path.rsplit("::", 1)[1] in exp.get("eager", []):
+                    continue
+                if not path.startswith(allowed_prefixes):
+                    bad = path
+        key = "%s [%s]" % (fname, exp["macro"])
+        if bad or n == 0:
+            ck.bad("C03.R8", "%s! disabled path" % exp["macro"], where(b.raw["sp"]),
+                   "on a path where the span is disabled the expansion calls %s (fixture %s)" % (bad, fname), fn=b.path)
+        else:
+            ck.ok("C03.R8", key, fn=b.path)
+    ds = F.body("tracing::__macro_support::MacroCallsite::disabled_span")
+    if ck.anchor("C03.R8", "MacroCallsite::disabled_span", ds):
+        rets = [p.ret for p in PathEval(ds).run() if p.end == "return"]
+        if len(rets) == 1 and rets[0][0] == "call" and rets[0][1] == SP + "Span::none":
+            ck.ok("C03.R8", "disabled_span() is Span::none()", fn=ds.path)
+        else:
+            ck.bad("C03.R8", "disabled_span() is Span::none()", where(ds.raw["sp"]), "returns %s" % [show(r) for r in rets])
+    for fn in (SP + "Span::none", SP + "Span::new_disabled"):
+        nb = F.body(fn)
+        if not ck.anchor("C03.R8", fn, nb):
+            continue
+        ok = False
+        for i, j, s in nb.stmts():
+            rv = s.get("rv", {})
+            if "agg" in rv and rv["agg"].get("adt") == SP + "Span":
+                o = nb.origin(dict(zip(rv["agg"]["fields"], rv["ops"]))["inner"])
+                ok = (o[0] == "agg" and o[1]["agg"].get("variant") == "None") or o[0] == "const"
+        if ok:
+            ck.ok("C03.R8", "%s has inner == None" % fn.rsplit("::", 1)[1], fn=fn)
+        else:
+            ck.bad("C03.R8", "%s has inner == None" % fn.rsplit("::", 1)[1], where(nb.raw["sp"]), "a disabled span carries a collector reference")
